@@ -46,6 +46,7 @@ type ent struct {
 	Shape string   // var/const: int named struct array
 	TName string   // var: name of its declared type
 	Init  bool     // var has an initialiser
+	Keyed bool     // var: Text ends with a KEYED struct literal `T{...}` (more `field: value` pairs can be appended)
 }
 
 type declSet struct {
@@ -74,7 +75,19 @@ func intExpr(e ent, r *vh.Rng) string {
 }
 
 func genSet(r *vh.Rng, withCounter bool) declSet {
+	s, _ := genSetK(r, withCounter, nil, false)
+	return s
+}
+
+// genSetK: force != nil repeats the KIND choice of every declaration of an earlier set (so that the new set declares the same
+// names with other shapes / initialisers); forceCycle always adds the family of mutually recursive struct types.
+// Returns the kind choices made.
+func genSetK(r *vh.Rng, withCounter bool, force []int, forceCycle bool) (declSet, []int) {
 	n := 3 + r.Intn(6)
+	if force != nil {
+		n = len(force)
+	}
+	var choices []int
 	var es []ent
 	pick := func(ok func(ent) bool) (int, bool) {
 		var c []int
@@ -101,6 +114,7 @@ func genSet(r *vh.Rng, withCounter bool) declSet {
 		i := len(es)
 		id := string(rune('a' + k))
 		var e ent
+		inConst := false // a constant initialiser cannot hold a map / array literal
 		terms := func(max int, ok func(ent) bool) (string, []int) {
 			var ts []string
 			var refs []int
@@ -110,6 +124,14 @@ func genSet(r *vh.Rng, withCounter bool) declSet {
 					x := intExpr(es[j], r)
 					if r.Chance(1, 4) {
 						x = x + "*" + fmt.Sprint(2+r.Intn(2))
+					} else if (es[j].Kind == "const" || es[j].Kind == "var") && es[j].Shape == "int" && es[j].Name != "Cnt" && !inConst && r.Chance(1, 6) {
+						// identifier key of a map / array literal: an expression, i.e. a reference (known finding C16-10: scope.go
+						// ignores every identifier key, so it is only generated next to another reference to the same name)
+						if es[j].Kind == "const" && r.Bool() {
+							x = fmt.Sprintf("[...]int{%s: %d}[%s]", es[j].Name, 1+r.Intn(9), es[j].Name)
+						} else {
+							x = fmt.Sprintf("map[int]int{%s: %d}[%s]", es[j].Name, 1+r.Intn(9), es[j].Name)
+						}
 					}
 					ts = append(ts, x)
 					refs = append(refs, j)
@@ -117,9 +139,16 @@ func genSet(r *vh.Rng, withCounter bool) declSet {
 			}
 			return strings.Join(ts, " + "), refs
 		}
-		switch r.Intn(10) {
+		choice := r.Intn(10)
+		if force != nil {
+			choice = force[k]
+		}
+		choices = append(choices, choice)
+		switch choice {
 		case 0, 1: // const
+			inConst = true
 			x, refs := terms(2, func(e ent) bool { return e.Kind == "const" })
+			inConst = false
 			e = ent{Kind: "const", Name: "K" + id, Text: "const K" + id + " = " + x, Refs: refs, Show: "K" + id, Shape: "int"}
 		case 2, 3: // type
 			name := "T" + id
@@ -186,6 +215,7 @@ func genSet(r *vh.Rng, withCounter bool) declSet {
 						b = t.TName + "(2)"
 					}
 					e.Text = "var " + name + " = " + t.Name + "{a: " + x + ", b: " + b + "}"
+					e.Keyed = true
 				case "array":
 					if r.Bool() {
 						e.Text = "var " + name + " " + t.Name
@@ -202,10 +232,83 @@ func genSet(r *vh.Rng, withCounter bool) declSet {
 		_ = i
 		es = append(es, e)
 	}
-	if !withCounter && r.Chance(1, 2) {
+	if !withCounter && (forceCycle || r.Chance(1, 2)) {
 		es = addTypeCycle(es, r)
 	}
-	return declSet{Ents: es}
+	es = addKeyCollisions(es, r)
+	return declSet{Ents: es}, choices
+}
+
+// addKeyCollisions: struct FIELDS named like package-level declarations of the same set (variables, functions, types,
+// constants - also ones that depend on the declaration holding the literal), used as KEYS of keyed struct literals.
+// A key of a struct literal is a field name, never a reference: no entry is added to Refs.
+//   - declared struct types (plain and mutually recursive) get 1..2 extra int fields named like random declarations; the
+//     keyed literals of those types set them and the variables are read back;
+//   - int initialisers and function bodies get a keyed literal of an ANONYMOUS struct type whose field is named like a
+//     random declaration.
+func addKeyCollisions(es []ent, r *vh.Rng) []ent {
+	var names []string
+	for _, e := range es {
+		if e.Name != "Cnt" && e.Name != "Next" {
+			names = append(names, e.Name)
+		}
+	}
+	if len(names) == 0 {
+		return es
+	}
+	for ti := range es {
+		t := &es[ti]
+		if t.Kind != "type" || (t.Shape != "struct" && t.Shape != "cyc") || !strings.HasSuffix(t.Text, " }") || !r.Chance(2, 3) {
+			continue
+		}
+		positional := false // a positional literal lists every field: such types keep their fields
+		for _, v := range es {
+			positional = positional || (v.Kind == "var" && v.TName == t.Name && !v.Keyed && strings.Contains(v.Text, "= "+t.Name+"{"))
+		}
+		if positional {
+			continue
+		}
+		var extra []string
+		for k := 1 + r.Intn(2); k > 0; k-- {
+			c := names[r.Intn(len(names))]
+			dup := false
+			for _, x := range extra {
+				dup = dup || x == c
+			}
+			if !dup {
+				extra = append(extra, c)
+			}
+		}
+		for _, c := range extra {
+			t.Text = strings.TrimSuffix(t.Text, " }") + "; " + c + " int }"
+		}
+		for vi := range es {
+			v := &es[vi]
+			if v.Kind != "var" || v.TName != t.Name || !v.Keyed || !strings.HasSuffix(v.Text, "}") {
+				continue
+			}
+			for _, c := range extra {
+				if r.Chance(3, 4) {
+					v.Text = strings.TrimSuffix(v.Text, "}") + fmt.Sprintf(", %s: %d}", c, 1+r.Intn(50))
+					if t.Shape == "cyc" {
+						v.Show += " + " + v.Name + "." + c // Show is an int expression; plain struct variables are shown whole
+					}
+				}
+			}
+		}
+	}
+	for i := range es {
+		e := &es[i]
+		c := names[r.Intn(len(names))]
+		lit := fmt.Sprintf("struct{ %s int }{%s: %d}.%s", c, c, 1+r.Intn(9), c)
+		switch {
+		case e.Kind == "var" && e.Shape == "int" && e.Init && e.Name != "Cnt" && !strings.HasSuffix(e.Text, "()") && r.Chance(1, 3):
+			e.Text += " + " + lit
+		case e.Kind == "func" && e.Name != "Next" && r.Chance(1, 4):
+			e.Text = strings.Replace(e.Text, ") int { ", ") int { _ = "+lit+"; ", 1)
+		}
+	}
+	return es
 }
 
 // addTypeCycle appends a family of 2..3 mutually recursive struct types (a TYPE cycle is valid Go: dep.Sorter emits a
@@ -222,17 +325,21 @@ func addTypeCycle(es []ent, r *vh.Rng) []ent {
 		links[i] = []string{"*%s", "*%s", "[]*%s", "map[int]*%s", "[]%s"}[r.Intn(5)]
 	}
 	links[r.Intn(m)] = "*%s" // at least one pointer link
+	// a third field whose NAME varies between sets (histories redefine the family with other shapes: a member compiled
+	// against a stale version of its neighbour then lacks the field)
+	xf := make([]string, m)
 	for i := 0; i < m; i++ {
+		xf[i] = fmt.Sprintf("e%d", r.Intn(3))
 		es = append(es, ent{Kind: "type", Name: tname(i), Shape: "cyc", Refs: []int{base + (i+1)%m},
-			Text: fmt.Sprintf("type %s struct { l %s; n int }", tname(i), fmt.Sprintf(links[i], tname(i+1)))})
+			Text: fmt.Sprintf("type %s struct { l %s; n int; %s int }", tname(i), fmt.Sprintf(links[i], tname(i+1)), xf[i])})
 	}
 	for i := 0; i < m; i++ {
 		t, tn := tname(i), tname(i+1)
 		k := 1 + r.Intn(90)
 		zero := len(es)
 		// a keyed literal that does not set the link: the variable other literals point to
-		es = append(es, ent{Kind: "var", Name: "L" + t, Init: true, Refs: []int{base + i}, Shape: "cyc", TName: t,
-			Text: fmt.Sprintf("var L%s = %s{n: %d}", t, t, k), Show: "L" + t + ".n"})
+		es = append(es, ent{Kind: "var", Name: "L" + t, Init: true, Refs: []int{base + i}, Shape: "cyc", TName: t, Keyed: true,
+			Text: fmt.Sprintf("var L%s = %s{n: %d, %s: %d}", t, t, k, xf[i], k+7), Show: "L" + t + ".n + L" + t + "." + xf[i]})
 		_ = zero
 		switch r.Intn(3) {
 		case 0:
@@ -245,22 +352,26 @@ func addTypeCycle(es []ent, r *vh.Rng) []ent {
 		case 1:
 			// the link field is set: keyed or positional
 			var lit, sh string
+			xn := xf[(i+1)%m] // the neighbour's varying field, set and read through the link
 			switch links[i] {
 			case "*%s":
-				lit, sh = fmt.Sprintf("&%s{n: %d}", tn, k+1), ".l.n"
+				lit, sh = fmt.Sprintf("&%s{n: %d, %s: 5}", tn, k+1, xn), ".l.n"
 			case "[]*%s":
-				lit, sh = fmt.Sprintf("[]*%s{{n: %d}, nil}", tn, k+1), ".l[0].n"
+				lit, sh = fmt.Sprintf("[]*%s{{n: %d, %s: 5}, nil}", tn, k+1, xn), ".l[0].n"
 			case "map[int]*%s":
-				lit, sh = fmt.Sprintf("map[int]*%s{3: {n: %d}}", tn, k+1), ".l[3].n"
+				lit, sh = fmt.Sprintf("map[int]*%s{3: {n: %d, %s: 5}}", tn, k+1, xn), ".l[3].n"
 			default:
-				lit, sh = fmt.Sprintf("[]%s{{n: %d}, {}}", tn, k+1), ".l[0].n"
+				lit, sh = fmt.Sprintf("[]%s{{n: %d, %s: 5}, {}}", tn, k+1, xn), ".l[0].n"
 			}
+			shx := strings.TrimSuffix(sh, "n") + xn
 			txt := fmt.Sprintf("var P%s = %s{l: %s, n: %d}", t, t, lit, k+2)
+			keyed := true
 			if r.Bool() {
-				txt = fmt.Sprintf("var P%s = %s{%s, %d}", t, t, lit, k+2)
+				txt = fmt.Sprintf("var P%s = %s{%s, %d, %d}", t, t, lit, k+2, k+4)
+				keyed = false
 			}
-			es = append(es, ent{Kind: "var", Name: "P" + t, Init: true, Refs: []int{base + i, base + (i+1)%m}, Shape: "cyc", TName: t,
-				Text: txt, Show: "P" + t + sh + " + P" + t + ".n"})
+			es = append(es, ent{Kind: "var", Name: "P" + t, Init: true, Refs: []int{base + i, base + (i+1)%m}, Shape: "cyc", TName: t, Keyed: keyed,
+				Text: txt, Show: "P" + t + sh + " + P" + t + ".n + P" + t + shx})
 		default:
 			if links[i] != "*%s" {
 				break
@@ -272,7 +383,7 @@ func addTypeCycle(es []ent, r *vh.Rng) []ent {
 					target = j
 				}
 			}
-			txt := fmt.Sprintf("var Q%s = %s{&L%s, %d}", t, t, tn, k+3)
+			txt := fmt.Sprintf("var Q%s = %s{&L%s, %d, %d}", t, t, tn, k+3, k+5)
 			refs := []int{base + i}
 			if target < 0 {
 				// L<next> is declared later in this family: forward reference to a variable
@@ -441,14 +552,20 @@ func typeCheck(src string) goInfo {
 
 type evalResult struct {
 	Err    string            `json:"err,omitempty"`
+	PreErr string            `json:"pre_err,omitempty"` // history: the FIRST evaluation failed (reported by the plain stream, not here)
 	Loop   bool              `json:"loop,omitempty"`
 	Values map[string]string `json:"values,omitempty"`
 }
 
-func evalGomacro(src string, shows []string) (res evalResult) {
+func evalGomacro(pre, src string, shows []string) (res evalResult) {
 	ir := fast.New()
 	ir.Comp.Globals.Stdout = io.Discard
 	ir.Comp.Globals.Stderr = io.Discard
+	if pre != "" {
+		if p := vh.Catch(func() { ir.Eval(pre) }); p != nil {
+			res.PreErr = strings.ReplaceAll(fmt.Sprint(p), "\n", " | ")
+		}
+	}
 	if p := vh.Catch(func() { ir.Eval(src) }); p != nil {
 		res.Err = strings.ReplaceAll(fmt.Sprint(p), "\n", " | ")
 		res.Loop = strings.Contains(res.Err, "declaration loop")
@@ -533,6 +650,7 @@ type variant struct {
 	Shows  []string
 	Origin string
 	Key    string
+	Pre    string // history: evaluated first, in the SAME interpreter (Src then redefines its names)
 }
 
 func buildOracle(dir string, vs []variant) (map[int]map[string]string, error) {
@@ -602,15 +720,19 @@ func main() {
 		"that set / do not set the link or point to another variable of the family, all read back (the slice/map link of a zero-valued variable is never read: known finding C16-8); "+
 		"1/3 of the sets use a side-effecting counter Next() so that the initialisation order is observable), each evaluated by ONE fast.Interp.Eval "+
 		"in 3 (quick) / 5 (thorough) random textual orders and compiled by go build in the same orders; plus sets with an initialisation cycle "+
-		"(checked against go/types); plus the corpus. Excluded classes (known findings): locals/parameters named like a declaration (#1), "+
+		"(checked against go/types); plus the corpus. "+
+		"Struct FIELDS are named like package-level declarations of the same set (vars, funcs, types, consts; declared struct types incl. the recursive family, and anonymous struct types inside int initialisers and function bodies) "+
+		"and keyed struct literals use those names as keys (field names, never references); identifier keys of map/array literals (references) only next to another reference to the same name (known finding C16-10). "+
+		"HISTORIES (40 quick / 400 thorough): a set with a family of mutually recursive types is evaluated, then a REDEFINING set (same names and kinds, other shapes/links/field names/initialisers, again with a type cycle; every 5th: the same set in another order) "+
+		"is evaluated in the SAME interpreter and every name is compared with compiled Go of the second set alone. Excluded classes (known findings): locals/parameters named like a declaration (#1), "+
 		"a function declaration that refers to a name declared earlier in the text (#2; every permutation puts a function before the names it uses), "+
 		"mutually recursive functions (#3), methods used by initialisers (C16-4), side-effecting sets whose declaration-level variable order differs from Go's variable-level order (C16-6). non-trivial = at least one reference between declarations; "+
 		"distinct by SHA-256 of the permuted text.")
 	cw := vh.NewCases(a, "From Coq Require Import List NArith ZArith.\nFrom Verif Require Import Common.GoStr C17.Model C16.Model.\nImport ListNotations.\nOpen Scope Z_scope.", "case", "mismatches", 250)
 
-	nSets, nPerm, nCyc := 70, 3, 40
+	nSets, nPerm, nCyc, nHist := 70, 3, 40, 40
 	if a.Thorough() {
-		nSets, nPerm, nCyc = 500, 5, 150
+		nSets, nPerm, nCyc, nHist = 500, 5, 150, 400
 	}
 	if a.N > 0 {
 		nSets = a.N
@@ -621,7 +743,14 @@ func main() {
 		if key == "" {
 			key = v.Src
 		}
-		rep.Fail(vh.Failure{Key: key, What: what, Input: map[string]interface{}{"src": v.Src, "origin": v.Origin, "key": v.Key}, Got: got, Want: want})
+		in := map[string]interface{}{"src": v.Src, "origin": v.Origin, "key": v.Key}
+		if v.Pre != "" {
+			in["evaluated_before_in_the_same_interpreter"] = v.Pre
+			if v.Key == "" {
+				key = v.Pre + "\n----\n" + v.Src
+			}
+		}
+		rep.Fail(vh.Failure{Key: key, What: what, Input: in, Got: got, Want: want})
 	}
 	// corpus first
 	files, _ := filepath.Glob(filepath.Join(os.Getenv("VERIF_DIR"), "corpus", "C16", "*.json"))
@@ -672,6 +801,28 @@ func main() {
 			vs = append(vs, v)
 		}
 	}
+	// HISTORIES: a set with a family of mutually recursive types is evaluated, then a REDEFINING set (the same names and kinds,
+	// other shapes / links / initialisers, again with a type cycle; or the very same set in another textual order) is
+	// evaluated in the SAME interpreter.  Both sets are counter-free (pure), so after the second evaluation every name must
+	// have the value compiled Go gives the second set alone.
+	for h := 0; h < nHist; h++ {
+		s1, choices := genSetK(rng, false, nil, true)
+		var s2 declSet
+		mode := "redefine-other-shapes"
+		if h%5 == 4 {
+			s2, mode = s1, "redefine-same-set-other-order"
+		} else {
+			s2, _ = genSetK(rng, false, choices, true)
+		}
+		var shows []string
+		for _, e := range s2.Ents {
+			if e.Show != "" {
+				shows = append(shows, e.Show)
+			}
+		}
+		vs = append(vs, variant{ID: len(vs), Set: nSets + nCyc + h, Src: text(s2, permute(s2, rng)), Shows: shows,
+			Origin: "history:" + mode, Pre: text(s1, permute(s1, rng))})
+	}
 	// go/types on every variant; only accepted ones are compiled
 	infos := make([]goInfo, len(vs))
 	var compile []variant
@@ -679,7 +830,7 @@ func main() {
 		infos[i] = typeCheck(v.Src)
 		if infos[i].Err == "" {
 			compile = append(compile, v)
-		} else if v.Origin == "random-valid" {
+		} else if v.Origin == "random-valid" || strings.HasPrefix(v.Origin, "history:") {
 			fail(v, "harness: generated set is not valid Go", infos[i].Err, nil)
 		} else if v.Origin == "random-cyclic" && !infos[i].Cycle {
 			fail(v, "harness: cyclic set rejected by go/types for another reason", infos[i].Err, nil)
@@ -708,7 +859,15 @@ func main() {
 	for i, v := range vs {
 		wd.Beat(v)
 		gi := infos[i]
-		res := evalGomacro(v.Src, v.Shows)
+		res := evalGomacro(v.Pre, v.Src, v.Shows)
+		if v.Pre != "" {
+			if gp := typeCheck(v.Pre); gp.Err != "" {
+				fail(v, "harness: first set of the history is not valid Go", gp.Err, nil)
+			}
+			if res.PreErr != "" {
+				rep.Dist("history:first-evaluation-failed")
+			}
+		}
 		out, loop, other, model := sorterRun(v.Src)
 		nrefs := strings.Count(model, "[") // rough: any dependency list
 		rep.Count(v.Src, nrefs > 0)
@@ -789,11 +948,11 @@ func main() {
 				obs = "(ObsOk " + vh.CoqList(ds, "decl") + ")"
 			}
 			cw.Add(fmt.Sprintf("mkCase %d %s %s", idx, model, obs))
-			rep.CaseInput(idx, map[string]interface{}{"src": v.Src, "origin": v.Origin})
+			rep.CaseInput(idx, map[string]interface{}{"src": v.Src, "origin": v.Origin, "evaluated_before_in_the_same_interpreter": v.Pre})
 			idx++
 		}
 		if i%53 == 7 {
-			rep.Sample(map[string]interface{}{"src": v.Src, "gomacro": res, "go": oracle[v.ID], "init_order": gi.InitOrder})
+			rep.Sample(map[string]interface{}{"src": v.Src, "evaluated_before_in_the_same_interpreter": v.Pre, "gomacro": res, "go": oracle[v.ID], "init_order": gi.InitOrder})
 		}
 	}
 	cw.Close()
